@@ -3,12 +3,17 @@ import DaskModel.Props.C04
 /-!
 # C05 — scheduler callbacks fire in protocol order and contexts nest like a stack
 
-Two models: `Model/Callbacks.lean` (`Callback.active`, `add_callbacks`, `Callback.__enter__/__exit__`,
-`register/unregister`, `local_callbacks`) and the callback log of `Model/Sched.lean`.
-The code modelled is the code **after** the repair of defect #1 (`/repo` commit 64c9a31): before it,
-`add_callbacks.__exit__` discarded everything it was given and `Callback.__enter__` overwrote its single
-`_cm` slot, so `exit_preserves_outer` was false (witness `with cb: (with cb: pass); get`, kept in the
-corpus).
+Two models: `Model/Callbacks.lean` (`Callback.active`, `add_callbacks` objects built / entered / left as separate
+operations, `Callback.__enter__/__exit__`, `register/unregister`, `local_callbacks`) and the callback log of
+`Model/Sched.lean`.
+The code modelled is the code **after** two repairs in `/repo`:
+* defect #1 (commit 64c9a31): `add_callbacks.__exit__` discarded everything it was given and `Callback.__enter__`
+  overwrote its single `_cm` slot, so `exit_preserves_outer` was false (witness `with cb: (with cb: pass); get`);
+* the re-used manager object (review round): `add_callbacks.__init__` decided what to deactivate and activated, `__enter__`
+  did nothing, so an `add_callbacks` object entered a second time inside a context that activated the same callback
+  deactivated it on leaving (witness `h = add_callbacks(cb); with h: pass; with add_callbacks(cb): (with h: pass); get`).
+  Now activation and the `_added` entry are made by `__enter__`, one entry per entry, popped by `__exit__`.
+Both witnesses are kept in the corpus and as `decide` examples below.
 -/
 namespace Dask.C05
 open Dask.Sched Dask.Callbacks
@@ -83,7 +88,7 @@ theorem stackOf_set (s : St) (c : Cb) (v : List (List Cb)) (c' : Cb) (s' : St)
   rw [h, Map.get?_set]
   split <;> rfl
 
-/-! ## contexts nest like a stack -/
+/-! ## the single operations (flat machine) -/
 
 /-- the state right after `cb.__enter__()` -/
 def enterSt (c : Cb) (s : St) : St :=
@@ -94,9 +99,117 @@ theorem step_enterObj (c : Cb) (s : St) : step (.enterObj c c) s = .ok (enterSt 
 theorem stackOf_enterSt (c : Cb) (s : St) : stackOf (enterSt c s) c = newOnes [c] s.active :: stackOf s c := by
   rw [stackOf_set s c _ c _ rfl]; simp
 
-/-- the three facts proved together by induction on the program -/
+/-- the state right after `h.__enter__()` for the manager `m` bound to `h` -/
+def enterCmSt (h : Nat) (m : Mgr) (s : St) : St :=
+  { active := activate m.cbs s.active,
+    cms := s.cms.set h { m with stack := newOnes m.cbs s.active :: m.stack },
+    objCms := s.objCms }
+
+theorem step_enterCm {h : Nat} {m : Mgr} {s : St} (hm : s.cms.get? h = some m) :
+    step (.enterCm h) s = .ok (enterCmSt h m s, none) := by
+  simp only [step, hm, cmEnter]
+  rfl
+
+theorem step_enterCm_none {h : Nat} {s : St} (hm : s.cms.get? h = none) :
+    step (.enterCm h) s = .error .badChoice := by
+  simp only [step, hm]
+
+/-- the state right after `h.__exit__()` popped the entry `added` -/
+def exitCmSt (h : Nat) (m : Mgr) (added : List Cb) (rest : List (List Cb)) (s : St) : St :=
+  { active := discardAll added s.active, cms := s.cms.set h { m with stack := rest }, objCms := s.objCms }
+
+theorem step_exitCm {h : Nat} {m : Mgr} {added : List Cb} {rest : List (List Cb)} {s : St}
+    (hm : s.cms.get? h = some m) (hs : m.stack = added :: rest) :
+    step (.exitCm h) s = .ok (exitCmSt h m added rest s, none) := by
+  simp only [step, hm, hs]
+  rfl
+
+/-- **building is inert** (second repair): `h = add_callbacks(*cbs)` activates nothing and touches no other manager -/
+theorem build_is_inert (h : Nat) (cbs : List Cb) (s s' : St) (u : Option (List Cb))
+    (hs : step (.buildCm h cbs) s = .ok (s', u)) :
+    s'.active = s.active ∧ s'.objCms = s.objCms ∧ s.cms.get? h = none ∧
+    s'.cms.get? h = some { cbs := cbs, stack := [] } ∧ ∀ h', h' ≠ h → s'.cms.get? h' = s.cms.get? h' := by
+  simp only [step] at hs
+  cases hg : s.cms.get? h with
+  | some m => rw [hg] at hs; cases hs
+  | none =>
+    rw [hg] at hs
+    simp only [Except.ok.injEq, Prod.mk.injEq] at hs
+    obtain ⟨rfl, _⟩ := hs
+    refine ⟨rfl, rfl, rfl, by simp [Map.get?_set], ?_⟩
+    intro h' hne
+    simp only [Map.get?_set]
+    rw [if_neg (fun e => hne e.symm)]
+
+/-- **entering**: everything given to the manager and everything that was active is active afterwards; the entry pushed
+on the manager's `_added` stack is exactly what was given and NOT active before -/
+theorem enterCm_spec (h : Nat) (s s' : St) (u : Option (List Cb)) (hs : step (.enterCm h) s = .ok (s', u)) :
+    ∃ m, s.cms.get? h = some m ∧
+      (∀ x, x ∈ s'.active ↔ x ∈ m.cbs ∨ x ∈ s.active) ∧
+      s'.cms.get? h = some { m with stack := newOnes m.cbs s.active :: m.stack } ∧
+      (∀ x, x ∈ newOnes m.cbs s.active ↔ x ∈ m.cbs ∧ x ∉ s.active) := by
+  cases hg : s.cms.get? h with
+  | none => rw [step_enterCm_none hg] at hs; cases hs
+  | some m =>
+    rw [step_enterCm hg] at hs
+    simp only [Except.ok.injEq, Prod.mk.injEq] at hs
+    obtain ⟨rfl, _⟩ := hs
+    exact ⟨m, rfl, fun x => mem_activate m.cbs s.active x, by simp [enterCmSt, Map.get?_set],
+      fun x => mem_newOnes m.cbs s.active x⟩
+
+/-- **leaving**: exactly the popped entry is deactivated, nothing else -/
+theorem exitCm_spec (h : Nat) (s s' : St) (u : Option (List Cb)) (hs : step (.exitCm h) s = .ok (s', u)) :
+    ∃ m added rest, s.cms.get? h = some m ∧ m.stack = added :: rest ∧
+      s'.cms.get? h = some { m with stack := rest } ∧
+      ∀ x, x ∈ s'.active ↔ x ∈ s.active ∧ x ∉ added := by
+  cases hg : s.cms.get? h with
+  | none => simp only [step, hg] at hs; cases hs
+  | some m =>
+    cases hst : m.stack with
+    | nil => simp only [step, hg, hst] at hs; cases hs
+    | cons added rest =>
+      rw [step_exitCm hg hst] at hs
+      simp only [Except.ok.injEq, Prod.mk.injEq] at hs
+      obtain ⟨rfl, _⟩ := hs
+      exact ⟨m, added, rest, rfl, hst, by simp [exitCmSt, Map.get?_set], fun x => mem_discardAll added s.active x⟩
+
+/-- **flat histories, also ill-bracketed**: enter the manager `h` in `s0`; let ANYTHING happen afterwards (other
+contexts entered and left in any order, the same manager entered again and left, register/unregister, scheduler
+calls) leading to a state `s2` in which the manager's `_added` stack is as the enter left it - i.e. the next
+`h.__exit__()` pops the entry this enter pushed; then that exit succeeds and deactivates nothing that was active
+before the enter. -/
+theorem flat_exit_preserves (h : Nat) (s0 s1 s2 : St) (u : Option (List Cb))
+    (henter : step (.enterCm h) s0 = .ok (s1, u)) (hbal : s2.cms.get? h = s1.cms.get? h) :
+    ∃ s3, step (.exitCm h) s2 = .ok (s3, none) ∧ s3.cms.get? h = s0.cms.get? h ∧
+      ∀ x, x ∈ s0.active → x ∈ s2.active → x ∈ s3.active := by
+  obtain ⟨m, hm, _, hpush, hnew⟩ := enterCm_spec h s0 s1 u henter
+  rw [hpush] at hbal
+  refine ⟨_, step_exitCm hbal rfl, ?_, ?_⟩
+  · rw [hm]; simp [exitCmSt, Map.get?_set]
+  · intro x hx0 hx2
+    show x ∈ discardAll _ s2.active
+    rw [mem_discardAll]
+    exact ⟨hx2, fun hn => ((hnew x).mp hn).2 hx0⟩
+
+/-- the same for a `Callback` object: `cb.__enter__()`, anything, `cb.__exit__()` popping the manager this enter pushed -/
+theorem flat_exitObj_preserves (c : Cb) (s0 s2 : St) (hbal : stackOf s2 c = stackOf (enterSt c s0) c) :
+    ∃ s3, step (.exitObj c) s2 = .ok (s3, none) ∧ stackOf s3 c = stackOf s0 c ∧
+      ∀ x, x ∈ s0.active → x ∈ s2.active → x ∈ s3.active := by
+  rw [stackOf_enterSt] at hbal
+  refine ⟨{ s2 with objCms := s2.objCms.set c (stackOf s0 c), active := discardAll (newOnes [c] s0.active) s2.active }, ?_, ?_, ?_⟩
+  · simp only [step, hbal]
+  · rw [stackOf_set s2 c (stackOf s0 c) c _ rfl]; simp
+  · intro x hx0 hx2
+    show x ∈ discardAll _ s2.active
+    rw [mem_discardAll]
+    exact ⟨hx2, fun hn => ((mem_newOnes [c] s0.active x).mp hn).2 hx0⟩
+
+/-! ## contexts nest like a stack -/
+
+/-- the facts proved together by induction on the program -/
 theorem exec_stack (p : Prog) : ∀ (s s' : St) (l : List (List Cb)), exec p s = .ok (s', l) →
     (∀ c, stackOf s' c = stackOf s c) ∧
+    (∀ h m, s.cms.get? h = some m → s'.cms.get? h = some m) ∧
     (∀ x, x ∈ s.active → ¬ p.unregisters x → x ∈ s'.active) ∧
     (∀ x, x ∈ s'.active → x ∈ s.active ∨ p.registers x) := by
   induction p with
@@ -104,7 +217,7 @@ theorem exec_stack (p : Prog) : ∀ (s s' : St) (l : List (List Cb)), exec p s =
     intro s s' l h
     simp only [exec, Except.ok.injEq, Prod.mk.injEq] at h
     obtain ⟨rfl, _⟩ := h
-    exact ⟨fun _ => rfl, fun x hx _ => hx, fun x hx => Or.inl hx⟩
+    exact ⟨fun _ => rfl, fun _ _ hm => hm, fun x hx _ => hx, fun x hx => Or.inl hx⟩
   | seq p q ihp ihq =>
     intro s s' l h
     simp only [exec] at h
@@ -121,9 +234,9 @@ theorem exec_stack (p : Prog) : ∀ (s s' : St) (l : List (List Cb)), exec p s =
         rw [hq] at h
         simp only [Except.ok.injEq, Prod.mk.injEq] at h
         obtain ⟨rfl, _⟩ := h
-        obtain ⟨a1, b1, c1⟩ := ihp s s1 l1 hp
-        obtain ⟨a2, b2, c2⟩ := ihq s1 s2 l2 hq
-        refine ⟨fun c => (a2 c).trans (a1 c), ?_, ?_⟩
+        obtain ⟨a1, m1, b1, c1⟩ := ihp s s1 l1 hp
+        obtain ⟨a2, m2, b2, c2⟩ := ihq s1 s2 l2 hq
+        refine ⟨fun c => (a2 c).trans (a1 c), fun h m hm => m2 h m (m1 h m hm), ?_, ?_⟩
         · intro x hx hn
           exact b2 x (b1 x hx (fun h1 => hn (Or.inl h1))) (fun h1 => hn (Or.inr h1))
         · intro x hx
@@ -134,7 +247,7 @@ theorem exec_stack (p : Prog) : ∀ (s s' : St) (l : List (List Cb)), exec p s =
           · exact Or.inr (Or.inr h1)
   | withCm cbs body ih =>
     intro s s' l h
-    simp only [exec, cmInit] at h
+    simp only [exec, cmEnter] at h
     cases hb : exec body { s with active := activate cbs s.active } with
     | error e => rw [hb] at h; cases h
     | ok r =>
@@ -142,8 +255,8 @@ theorem exec_stack (p : Prog) : ∀ (s s' : St) (l : List (List Cb)), exec p s =
       rw [hb] at h
       simp only [Except.ok.injEq, Prod.mk.injEq] at h
       obtain ⟨rfl, _⟩ := h
-      obtain ⟨a, b, c⟩ := ih _ s2 l2 hb
-      refine ⟨fun c' => a c', ?_, ?_⟩
+      obtain ⟨a, mm, b, c⟩ := ih _ s2 l2 hb
+      refine ⟨fun c' => a c', fun h m hm => mm h m hm, ?_, ?_⟩
       · intro x hx hn
         show x ∈ discardAll _ s2.active
         rw [mem_discardAll]
@@ -169,13 +282,13 @@ theorem exec_stack (p : Prog) : ∀ (s s' : St) (l : List (List Cb)), exec p s =
       obtain ⟨s2, l2⟩ := r
       rw [hb] at h
       simp only [step] at h
-      obtain ⟨a, b, cc⟩ := ih _ s2 l2 hb
+      obtain ⟨a, mm, b, cc⟩ := ih _ s2 l2 hb
       have htop : stackOf s2 c = newOnes [c] s.active :: stackOf s c := by
         rw [a c, stackOf_enterSt]
       rw [htop] at h
       simp only [Except.ok.injEq, Prod.mk.injEq] at h
       obtain ⟨rfl, _⟩ := h
-      refine ⟨?_, ?_, ?_⟩
+      refine ⟨?_, fun h m hm => mm h m hm, ?_, ?_⟩
       · intro c'
         rw [stackOf_set s2 c (stackOf s c) c' _ rfl]
         split
@@ -199,11 +312,83 @@ theorem exec_stack (p : Prog) : ∀ (s s' : St) (l : List (List Cb)), exec p s =
             · exact absurd ((mem_newOnes [c] s.active x).mpr ⟨h2, hxa⟩) hx'.2
           · exact Or.inl h2
         · exact Or.inr h1
+  | build h cbs =>
+    intro s s' l hh
+    simp only [exec] at hh
+    cases hst : step (.buildCm h cbs) s with
+    | error e => rw [hst] at hh; cases hh
+    | ok r =>
+      obtain ⟨s1, u⟩ := r
+      rw [hst] at hh
+      simp only [Except.ok.injEq, Prod.mk.injEq] at hh
+      obtain ⟨rfl, _⟩ := hh
+      obtain ⟨ha, ho, hnone, _, hother⟩ := build_is_inert h cbs s s1 u hst
+      refine ⟨fun c => by unfold stackOf; rw [ho], ?_, fun x hx _ => by rw [ha]; exact hx,
+        fun x hx => Or.inl (by rw [ha] at hx; exact hx)⟩
+      intro h' m hm
+      have hne : h' ≠ h := by rintro rfl; rw [hnone] at hm; cases hm
+      rw [hother h' hne]; exact hm
+  | withH h body ih =>
+    intro s s' l hh
+    simp only [exec] at hh
+    cases hg : s.cms.get? h with
+    | none => rw [step_enterCm_none hg] at hh; cases hh
+    | some m =>
+      rw [step_enterCm hg] at hh
+      simp only [] at hh
+      cases hb : exec body (enterCmSt h m s) with
+      | error e => rw [hb] at hh; cases hh
+      | ok r =>
+        obtain ⟨s2, l2⟩ := r
+        rw [hb] at hh
+        simp only [] at hh
+        obtain ⟨a, mm, b, cc⟩ := ih _ s2 l2 hb
+        have hpush : (enterCmSt h m s).cms.get? h = some { m with stack := newOnes m.cbs s.active :: m.stack } := by
+          simp [enterCmSt, Map.get?_set]
+        have h2 := mm h _ hpush
+        rw [step_exitCm h2 rfl] at hh
+        simp only [Except.ok.injEq, Prod.mk.injEq] at hh
+        obtain ⟨rfl, _⟩ := hh
+        refine ⟨?_, ?_, ?_, ?_⟩
+        · intro c
+          have : stackOf (exitCmSt h { m with stack := newOnes m.cbs s.active :: m.stack } (newOnes m.cbs s.active) m.stack s2) c
+              = stackOf s2 c := rfl
+          rw [this, a c]; rfl
+        · intro h' m' hm'
+          show Map.get? (s2.cms.set h _) h' = some m'
+          rw [Map.get?_set]
+          by_cases hhh : h = h'
+          · subst hhh
+            rw [hg] at hm'
+            simp only [Option.some.injEq] at hm'
+            subst hm'
+            simp
+          · rw [if_neg hhh]
+            apply mm h' m'
+            show Map.get? (s.cms.set h _) h' = some m'
+            rw [Map.get?_set, if_neg hhh]
+            exact hm'
+        · intro x hx hn
+          show x ∈ discardAll _ s2.active
+          rw [mem_discardAll]
+          refine ⟨b x ((mem_activate m.cbs s.active x).mpr (Or.inr hx)) hn, ?_⟩
+          intro hadd
+          exact ((mem_newOnes m.cbs s.active x).mp hadd).2 hx
+        · intro x hx
+          have hx' : x ∈ discardAll (newOnes m.cbs s.active) s2.active := hx
+          rw [mem_discardAll] at hx'
+          rcases cc x hx'.1 with h1 | h1
+          · rcases (mem_activate m.cbs s.active x).mp h1 with h3 | h3
+            · by_cases hxa : x ∈ s.active
+              · exact Or.inl hxa
+              · exact absurd ((mem_newOnes m.cbs s.active x).mpr ⟨h3, hxa⟩) hx'.2
+            · exact Or.inl h3
+          · exact Or.inr h1
   | register c =>
     intro s s' l h
     simp only [exec, Except.ok.injEq, Prod.mk.injEq] at h
     obtain ⟨rfl, _⟩ := h
-    refine ⟨fun _ => rfl, fun x hx _ => mem_sadd.mpr (Or.inr hx), ?_⟩
+    refine ⟨fun _ => rfl, fun _ _ hm => hm, fun x hx _ => mem_sadd.mpr (Or.inr hx), ?_⟩
     intro x hx
     rcases mem_sadd.mp hx with h1 | h1
     · exact Or.inr h1.symm
@@ -214,7 +399,7 @@ theorem exec_stack (p : Prog) : ∀ (s s' : St) (l : List (List Cb)), exec p s =
     split at h
     · simp only [Except.ok.injEq, Prod.mk.injEq] at h
       obtain ⟨rfl, _⟩ := h
-      refine ⟨fun _ => rfl, ?_, fun x hx => Or.inl (mem_srem.mp hx).1⟩
+      refine ⟨fun _ => rfl, fun _ _ hm => hm, ?_, fun x hx => Or.inl (mem_srem.mp hx).1⟩
       intro x hx hn
       exact mem_srem.mpr ⟨hx, fun e => hn e.symm⟩
     · cases h
@@ -222,26 +407,29 @@ theorem exec_stack (p : Prog) : ∀ (s s' : St) (l : List (List Cb)), exec p s =
     intro s s' l h
     simp only [exec, Except.ok.injEq, Prod.mk.injEq] at h
     obtain ⟨rfl, _⟩ := h
-    exact ⟨fun _ => rfl, fun x hx _ => hx, fun x hx => Or.inl hx⟩
+    exact ⟨fun _ => rfl, fun _ _ hm => hm, fun x hx _ => hx, fun x hx => Or.inl hx⟩
 
 /-- **`exit_preserves_outer`**: for every well-bracketed history `p` (any nesting depth, any mixture of
-`with cb`, `with add_callbacks(...)`, `register`, scheduler calls, the same or different callback objects),
+`with cb`, `with add_callbacks(...)`, `with h` for manager objects built earlier - entered later than built, several
+times, inside themselves -, `register`, scheduler calls, the same or different callback objects),
 a callback that was active before — activated by an enclosing context or by an earlier `register()` — is
 still active afterwards, unless `p` itself unregisters it. -/
 theorem exit_preserves_outer (p : Prog) (s s' : St) (l : List (List Cb)) (h : exec p s = .ok (s', l))
     (x : Cb) (hx : x ∈ s.active) (hn : ¬ p.unregisters x) : x ∈ s'.active :=
-  (exec_stack p s s' l h).2.1 x hx hn
+  (exec_stack p s s' l h).2.2.1 x hx hn
 
 /-- **contexts nest like a stack**: nothing is left active by a block except what it explicitly registered,
-and every `Callback` object finds its own stack of managers as it was. -/
+every `Callback` object finds its own stack of managers as it was, and every manager object that existed before
+finds its `_added` stack as it was. -/
 theorem exit_restores (p : Prog) (s s' : St) (l : List (List Cb)) (h : exec p s = .ok (s', l)) :
-    (∀ x, x ∈ s'.active → x ∈ s.active ∨ p.registers x) ∧ (∀ c, stackOf s' c = stackOf s c) :=
-  ⟨(exec_stack p s s' l h).2.2, (exec_stack p s s' l h).1⟩
+    (∀ x, x ∈ s'.active → x ∈ s.active ∨ p.registers x) ∧ (∀ c, stackOf s' c = stackOf s c) ∧
+    (∀ h m, s.cms.get? h = some m → s'.cms.get? h = some m) :=
+  ⟨(exec_stack p s s' l h).2.2.2, (exec_stack p s s' l h).1, (exec_stack p s s' l h).2.1⟩
 
 /-- a block without `register`/`unregister` leaves `Callback.active` exactly as it found it -/
 theorem block_is_neutral (p : Prog) (hr : ∀ x, ¬ p.registers x) (hu : ∀ x, ¬ p.unregisters x)
     (s s' : St) (l : List (List Cb)) (h : exec p s = .ok (s', l)) (x : Cb) : x ∈ s'.active ↔ x ∈ s.active := by
-  obtain ⟨_, b, c⟩ := exec_stack p s s' l h
+  obtain ⟨_, _, b, c⟩ := exec_stack p s s' l h
   constructor
   · intro hx
     rcases c x hx with h1 | h1
@@ -253,14 +441,29 @@ theorem block_is_neutral (p : Prog) (hr : ∀ x, ¬ p.registers x) (hu : ∀ x, 
 active outside -/
 theorem with_activates (cbs : List Cb) (s s' : St) (l : List (List Cb)) (h : exec (.withCm cbs .get) s = .ok (s', l)) :
     ∃ used, l = [used] ∧ ∀ x, x ∈ used ↔ x ∈ cbs ∨ x ∈ s.active := by
-  simp only [exec, cmInit, Except.ok.injEq, Prod.mk.injEq] at h
+  simp only [exec, cmEnter, Except.ok.injEq, Prod.mk.injEq] at h
   obtain ⟨_, rfl⟩ := h
   exact ⟨_, rfl, fun x => mem_activate cbs s.active x⟩
+
+/-- same for `with h:` where `h` is a manager object built earlier (possibly entered before, possibly open) -/
+theorem withH_activates (h : Nat) (s s' : St) (l : List (List Cb)) (he : exec (.withH h .get) s = .ok (s', l)) :
+    ∃ m used, s.cms.get? h = some m ∧ l = [used] ∧ ∀ x, x ∈ used ↔ x ∈ m.cbs ∨ x ∈ s.active := by
+  simp only [exec] at he
+  cases hg : s.cms.get? h with
+  | none => rw [step_enterCm_none hg] at he; cases he
+  | some m =>
+    rw [step_enterCm hg] at he
+    simp only [] at he
+    have hpush : (enterCmSt h m s).cms.get? h = some { m with stack := newOnes m.cbs s.active :: m.stack } := by
+      simp [enterCmSt, Map.get?_set]
+    rw [step_exitCm hpush rfl] at he
+    simp only [Except.ok.injEq, Prod.mk.injEq] at he
+    obtain ⟨_, rfl⟩ := he
+    exact ⟨m, _, rfl, rfl, fun x => mem_activate m.cbs s.active x⟩
 
 /-- same for `with cb:`, and for the re-entered object (`with cb: with cb: get`) -/
 theorem with_obj_activates (c : Cb) (s s' : St) (l : List (List Cb)) (h : exec (.withObj c .get) s = .ok (s', l)) :
     ∃ used, l = [used] ∧ c ∈ used := by
-  obtain ⟨a, b, _⟩ := exec_stack (.withObj c .get) s s' l h
   simp only [exec, step_enterObj] at h
   simp only [step] at h
   have htop := stackOf_enterSt c s
@@ -277,14 +480,15 @@ open Dask.C01 in
 /-- **`protocol_order`**: the event sequence every active callback sees during one `get_async` call is
 `start, start_state, (pretask | posttask | <submit>)*, finish`: `start` and `start_state` come first and once,
 `finish` comes last and once (also on failure, with the flag set), and in between every executed key has
-exactly one `pretask` and at most one `posttask` (exactly one when the call succeeds). -/
+exactly one `pretask` and at most one `posttask` (exactly one when the call succeeds), and at every moment (every
+prefix of the sequence) a key that had its `posttask` had its `pretask` before (`Ordered mid`). -/
 theorem protocol_order {α : Type} {cfg : Cfg} {P : Params α} {rank : Key → Nat} {st0 : State α}
     (h : Hyp cfg rank) (hst : startState cfg P = .ok st0) (hs : StartOK cfg (den cfg P rank) st0)
     (choices : List Nat) (hbad : (getAsync cfg P choices).outcome ≠ .error .badChoice) :
     ∃ mid st b, (getAsync cfg P choices).log =
         [(Ev.start, ({} : State α)), (Ev.startState, st0)] ++ mid ++ [(Ev.finish b, st)] ∧
       (∀ e ∈ mid, midEv e.1 = true) ∧ (preKeys mid).Nodup ∧ (postKeys mid).Nodup ∧
-      (∀ k, k ∈ postKeys mid → k ∈ preKeys mid) ∧
+      (∀ k, k ∈ postKeys mid → k ∈ preKeys mid) ∧ Ordered mid ∧
       (b = false ↔ (getAsync cfg P choices).outcome = .ok .done) ∧
       (b = false → ∀ k, k ∈ preKeys mid ↔ k ∈ postKeys mid) := by
   rw [getAsync_eq hst (hs.accessible rank h.acyclic) choices] at hbad ⊢
@@ -308,19 +512,25 @@ theorem protocol_order {α : Type} {cfg : Cfg} {P : Params α} {rank : Key → N
       rw [← hpre]
       exact (hB.preIff k).mpr (Or.inr ((hB.postIff k).mp hk))
     have hlog : s'.log = [(Ev.start, ({} : State α)), (Ev.startState, st0)] ++ ext := hext
+    have hord : Ordered ext := by
+      intro l1 l2 hl k hk
+      have h1 := hB.ordered ([(Ev.start, ({} : State α)), (Ev.startState, st0)] ++ l1) l2
+        (by rw [hlog, hl, List.append_assoc]) k (by rw [postKeys_append]; exact List.mem_append_right _ hk)
+      rw [preKeys_append] at h1
+      simpa [preKeys] using h1
     cases o with
     | done =>
       obtain ⟨hB', hl⟩ := hdone rfl
       have hrun0 : s'.st.running = [] := ((loopCond_false_iff s'.st).mp hl).2.2
-      refine ⟨ext, s'.st, false, by simp [hlog], hmid, hpre ▸ hB.preNodup, hpost ▸ hB.postNodup, hsub, by simp, ?_⟩
+      refine ⟨ext, s'.st, false, by simp [hlog], hmid, hpre ▸ hB.preNodup, hpost ▸ hB.postNodup, hsub, hord, by simp, ?_⟩
       intro _ k
       rw [← hpre, ← hpost, hB.preIff k, hB.postIff k, hrun0]
       simp
     | starved =>
-      exact ⟨ext, s'.st, true, by simp [hlog], hmid, hpre ▸ hB.preNodup, hpost ▸ hB.postNodup, hsub, by simp,
+      exact ⟨ext, s'.st, true, by simp [hlog], hmid, hpre ▸ hB.preNodup, hpost ▸ hB.postNodup, hsub, hord, by simp,
         by intro hb; cases hb⟩
     | failed k =>
-      exact ⟨ext, s'.st, true, by simp [hlog], hmid, hpre ▸ hB.preNodup, hpost ▸ hB.postNodup, hsub, by simp,
+      exact ⟨ext, s'.st, true, by simp [hlog], hmid, hpre ▸ hB.preNodup, hpost ▸ hB.postNodup, hsub, hord, by simp,
         by intro hb; cases hb⟩
 
 open Dask.C01 in
@@ -331,7 +541,7 @@ theorem protocol_order_full {α : Type} {cfg : Cfg} {P : Params α} {rank : Key 
     ∃ mid st b, (getAsync cfg P choices).log =
         [(Ev.start, ({} : State α)), (Ev.startState, st0)] ++ mid ++ [(Ev.finish b, st)] ∧
       (∀ e ∈ mid, midEv e.1 = true) ∧ (preKeys mid).Nodup ∧ (postKeys mid).Nodup ∧
-      (∀ k, k ∈ postKeys mid → k ∈ preKeys mid) ∧
+      (∀ k, k ∈ postKeys mid → k ∈ preKeys mid) ∧ Ordered mid ∧
       (b = false ↔ (getAsync cfg P choices).outcome = .ok .done) ∧
       (b = false → ∀ k, k ∈ preKeys mid ↔ k ∈ postKeys mid) :=
   protocol_order h hst (C01.startOK_of_eq h hG hst) choices hbad
@@ -345,8 +555,20 @@ example : (exec (.seq (.register 7) (.seq (.withObj 7 .skip) (.seq .get (.unregi
 /-- after the outermost exit nothing is active any more -/
 example : (exec (.withObj 7 (.withObj 7 (.withCm [7, 8] .get))) {}).toOption.map (fun r => (r.1.active, r.2))
     = some ([], [[7, 8]]) := by decide
+/-- the second counterexample (re-used manager object, repaired by the second fix):
+`h = add_callbacks(cb); with h: pass; with add_callbacks(cb): (with h: pass); get` - the get sees `cb` -/
+example : (exec (.seq (.build 0 [7]) (.seq (.withH 0 .skip) (.withCm [7] (.seq (.withH 0 .skip) .get)))) {}).toOption.map
+    (fun r => (r.1.active, r.2)) = some ([], [[7]]) := by decide
+/-- a manager entered inside itself, built before an enclosing context activated the same callback -/
+example : (exec (.seq (.build 0 [7, 8]) (.withCm [7] (.seq (.withH 0 (.withH 0 .get)) .get))) {}).toOption.map
+    (fun r => (r.1.active, r.2)) = some ([], [[7, 8], [7]]) := by decide
 /-- the flat machine on an ill-bracketed history (exit of the outer manager first): allowed, diffed against the code -/
-example : ((run [.enterCm [1], .enterCm [1, 2], .exitCm 0, .get] {}).map
-    (fun r => match r with | .ok (s, _) => s.active | .error _ => [99])) = [[1], [1, 2], [2], [2]] := by decide
+example : ((run [.buildCm 0 [1], .buildCm 1 [1, 2], .enterCm 0, .enterCm 1, .exitCm 0, .get] {}).map
+    (fun r => match r with | .ok (s, _) => s.active | .error _ => [99])) = [[], [], [1], [1, 2], [2], [2]] := by decide
+/-- non-vacuity of `flat_exit_preserves`: enter, an unrelated enter/exit and a register in between, then the matching exit -/
+example : ∃ s0 s1 s2 : St, step (.enterCm 0) s0 = .ok (s1, none) ∧ s2.cms.get? 0 = s1.cms.get? 0 ∧ 5 ∈ s0.active ∧ 5 ∈ s2.active :=
+  ⟨{ active := [5], cms := [(0, { cbs := [5, 6] })] },
+   { active := [5, 6], cms := [(0, { cbs := [5, 6], stack := [[6]] })] },
+   { active := [5, 6, 9], cms := [(0, { cbs := [5, 6], stack := [[6]] })] }, rfl, rfl, by decide, by decide⟩
 
 end Dask.C05
